@@ -217,9 +217,20 @@ pub fn operation(p: &mut Parser<'_>, mut skip: Skip) -> Result<Option<Skip>> {
         while let Some(prev) = stack.last_mut() {
             match priority.cmp(&prev.1) {
                 Ordering::Less => {
+                    // The group on top binds tighter than this operator:
+                    // close it and continue with the group below, or start a
+                    // new group at the same position if that one binds looser.
                     p.close_at(&prev.0, OPERATION)?;
-                    *prev = (prev.0.clone(), priority, extra);
-                    continue;
+                    let closed = prev.0.clone();
+                    stack.pop();
+
+                    match stack.last() {
+                        Some(below) if below.1 >= priority => continue,
+                        _ => {
+                            stack.push((closed, priority, extra));
+                            break;
+                        }
+                    }
                 }
                 Ordering::Greater => {
                     stack.push((cur, priority, extra));
